@@ -264,6 +264,10 @@ def render_site(pos, callee):
         "cmp_rhs": "if ((b & 3) == %s) a++;" % e,
         "index": "a = arr[%s & 3];" % e,
         "ret": "return %s;" % e,
+        "switchsel": "switch (%s) { case 1: a++; break; default: b++; }" % e,
+        "forupdate": "for (X = 0; X < 2; b = %s) { X++; }" % e,
+        "dowhilecond": "do { a++; } while (%s == 77);" % e,
+        "argofarg": "a = w(w(%s));" % e,
     }[pos]
 
 
@@ -277,7 +281,7 @@ def render_graph(c):
         if s["pos"] == "none":
             continue
         f, g = FN[s["from"]], FN[s["to"]]
-        if s["pos"] == "arg":
+        if s["pos"] in ("arg", "argofarg"):
             uses_w = True
             src[f].append("w")
         src[f].append(g)
@@ -326,8 +330,9 @@ def c12(tier):
     d = common.workdir("gen_c12")
     cfg = os.path.join(d, "GenGraph.cfg")
     possets = ['{"stmt", "ifcond", "arg", "loopbody", "ret"}', '{"binop_rhs", "cmp_rhs", "stmt", "assign"}']
+    possets.append('{"ternary", "switchsel", "forupdate", "whilecond"}')
     if tier == "thorough":
-        possets.append('{"whilecond", "ternary", "switchcase", "index", "stmt"}')
+        possets.append('{"switchcase", "index", "dowhilecond", "argofarg", "stmt"}')
     seen, cases = set(), []
     res = None
     for pi, pos in enumerate(possets):
